@@ -16,7 +16,7 @@ from . import c10, c12
 ID = "C13"
 LEVEL = "fault_enumeration"
 DESIGN_REF = "DESIGN.md section 3, C13"
-TECHNIQUE = "exhaustive command x parameter x raw-kind confusion matrix, Hypothesis-generated token/character corruptions of valid models and hostile CSV contents; allowed-exception oracle at the from_source()/run() boundary and CLI exit-status/stderr oracle through click's CliRunner"
+TECHNIQUE = "exhaustive command x parameter x raw-kind confusion matrices (MPilot and EEMS 2.0 syntax), Hypothesis-generated token/character corruptions and hostile CSV contents, and coverage-guided fuzzing of command-file text with atheris/libFuzzer; allowed-exception oracle at the from_source()/run() boundary and CLI exit-status/stderr oracle through click's CliRunner"
 LEVEL_TEXT = (
     "(a) For every built-in command (both I/O libraries) and every parameter, the argument is replaced by each of 13 raw "
     "kinds (integer, decimal, word, quoted text, boolean word, empty list, number list, word list, nested list, tuple, "
@@ -333,7 +333,89 @@ def check_csv(case, rec):
     return fails
 
 
-PARTS = {"matrix": check_matrix, "v2": check_v2, "corrupt": check_corrupt, "csv": check_csv}
+# ------------------------------------------------------------------------------------ (d) coverage-guided fuzzing
+
+def check_text(case, rec):
+    """Plain replay of a saved fuzzer input (or any text) through the same oracle."""
+    tmp = tempfile.mkdtemp(prefix="vcheck-c13-")
+    try:
+        c12.prepare_dir(tmp, SP.CSV)
+        fails, kind, exc = judge(case["text"], tmp, SP.CSV, rec, "text", cli=False)
+    finally:
+        shutil.rmtree(tmp, ignore_errors=True)
+    rec.label("text_replayed")
+    return fails
+
+
+FUZZ_DICT = ["EEMSRead", "CvtToFuzzy", "FuzzyOr", "Sum", "WeightedSum", "NormalizeCurve", "READ", "SUM", "NewFieldName", "InFieldName",
+             "InFieldNames", "InFileName", "Weights", "RawValues", "Metadata", "TrueThreshold", "DataType", "= ", "(", ")", "[", "]", ",",
+             ":", "#", "\"", "'", "\\", "\n", "\r\n", "1.5", "-2", "1e5", "true", "input.csv", "a", "Float", "[a, b:c]", "9" * 50]
+
+
+def run_atheris(ctx, rec, runs):
+    """A libFuzzer campaign through atheris in a subprocess; crashes become ordinary `text` cases."""
+    import glob
+    import subprocess
+    import sys
+
+    from ..core import VERIF_DIR
+
+    deps = os.path.join(VERIF_DIR, ".deps")
+    if not os.path.isdir(os.path.join(deps, "atheris")):
+        rec.notes.append("atheris not installed in .deps: coverage-guided part skipped")
+        return
+    tmp = tempfile.mkdtemp(prefix="vcheck-c13-fuzz-")
+    try:
+        work = os.path.join(tmp, "work")
+        corpus = os.path.join(tmp, "corpus")
+        crashes = os.path.join(tmp, "crashes")
+        for d in (work, corpus, crashes):
+            os.makedirs(d)
+        c12.prepare_dir(work, SP.CSV)
+        # seeds: a few valid models, and the empty corpus behaviour through an empty file
+        t = SP.table(SP.CSV)
+        seeds = [c12.text_of(c12.base_commands(SP.CSV)), ""]
+        for cmd in ("Sum", "FuzzyOr", "NormalizeCurve", "CvtToFuzzyCat", "WeightedMean"):
+            seeds.append(c12.text_of(c12.base_commands(SP.CSV) + [c12.canonical(cmd, "X", t[cmd], {"nf": "Src", "fz": "Fz"}, SP.CSV)]))
+        seeds.append('READ(InFileName = "input.csv", InFieldName = a)\nSUM(InFieldNames = [a, a], NewFieldName = S)\n')
+        for k, text in enumerate(seeds):
+            with open(os.path.join(corpus, "seed%d" % k), "w") as f:
+                f.write(text)
+        with open(os.path.join(tmp, "dict"), "w") as f:
+            for k, tok in enumerate(FUZZ_DICT):
+                enc = "".join(
+                    "\\" + chr(b) if chr(b) in '\\"' else (chr(b) if 32 <= b < 127 else "\\x%02x" % b) for b in tok.encode("utf-8"))
+                f.write('kw%d="%s"\n' % (k, enc))
+        env = dict(os.environ, VCHECK_FUZZ_DIR=work, PYTHONPATH=os.environ.get("PYTHONPATH", "") + os.pathsep + deps)
+        cmd = [sys.executable, "-W", "ignore", "-m", "vcheck.fuzz.text_target", corpus, "-runs=%d" % runs,
+               "-seed=%d" % (ctx.hseed("atheris") % (2 ** 31 - 2) + 1), "-max_len=400", "-dict=" + os.path.join(tmp, "dict"),
+               "-artifact_prefix=" + crashes + os.sep, "-print_final_stats=1", "-timeout=60", "-rss_limit_mb=4096"]
+        out = subprocess.run(cmd, cwd=VERIF_DIR, env=env, capture_output=True, text=True, timeout=3600)
+        execs = 0
+        for line in out.stderr.splitlines():
+            if line.startswith("stat::number_of_executed_units:"):
+                execs = int(line.split(":")[-1])
+        rec.evaluated(execs)
+        rec.parts["text/atheris"] += execs
+        rec.label("atheris_executions", n=execs)
+        if execs == 0 and out.returncode != 0 and not glob.glob(os.path.join(crashes, "crash-*")):
+            rec.notes.append("atheris campaign did not run: %s" % out.stderr[-300:].replace("\n", " | "))
+        for path in sorted(glob.glob(os.path.join(crashes, "crash-*")))[:5]:
+            with open(path, "rb") as f:
+                data = f.read()
+            try:
+                text = data.decode("utf-8")
+            except UnicodeDecodeError:
+                continue
+            case = {"text": text}
+            for f_ in check_text(case, rec):
+                if not rec.is_known(f_):
+                    rec.add_failure(f_, case, "text")
+    finally:
+        shutil.rmtree(tmp, ignore_errors=True)
+
+
+PARTS = {"matrix": check_matrix, "v2": check_v2, "corrupt": check_corrupt, "csv": check_csv, "text": check_text}
 
 
 def run_shard(ctx, rec):
@@ -341,3 +423,5 @@ def run_shard(ctx, rec):
     drive_enum(ctx, rec, "v2", v2_cases(), check_v2, exhaustive=True, max_novel=12)
     drive(ctx, rec, "corrupt", corrupt_cases(), check_corrupt, ctx.n(2500, 60000), max_novel=6)
     drive(ctx, rec, "csv", csv_cases(), check_csv, ctx.n(800, 20000))
+    if ctx.shard < (2 if ctx.quick else 8):
+        run_atheris(ctx, rec, 3000 if ctx.quick else 150000)
